@@ -84,6 +84,31 @@ def goInternalEscapeBytes (l : List UInt8) (startLoc : Int) (nl strip : Bool) : 
 
 def goStripMarkers (l : List UInt8) : List UInt8 := stripMarkers l
 
+/-- `regexp.MustCompile("[‹›]").ReplaceAll(l, r)` / `ReplaceAllString`: every marker occurrence replaced by `r`
+(leftmost, non-overlapping; `r` without `$`). The regexp's source text is a regenerated fact (Props/FactsConsts.lean);
+that Go's engine finds the occurrences `tokenize` finds is the M stream's business. -/
+def replMarkersT (r : List UInt8) : List Tok → List UInt8
+  | [] => []
+  | .s :: t => r ++ replMarkersT r t
+  | .e :: t => r ++ replMarkersT r t
+  | .b x :: t => x :: replMarkersT r t
+
+def goReplaceMarkers (l r : List UInt8) : List UInt8 := replMarkersT r (tokenize l)
+
+/-- `regexp.MustCompile("‹[^‹›]*›").ReplaceAll(l, r)`: every complete envelope (a start marker, then no marker, then
+an end marker; leftmost) replaced by `r`; an unmatched start marker and what follows it stay. -/
+def replEnvAux (r : List UInt8) : Option (List Tok) → List Tok → List UInt8
+  | none, [] => []
+  | some acc, [] => untok (.s :: acc.reverse)
+  | none, .s :: t => replEnvAux r (some []) t
+  | none, .e :: t => untok [.e] ++ replEnvAux r none t
+  | none, .b x :: t => x :: replEnvAux r none t
+  | some acc, .b x :: t => replEnvAux r (some (.b x :: acc)) t
+  | some _, .e :: t => r ++ replEnvAux r none t
+  | some acc, .s :: t => untok (.s :: acc.reverse) ++ replEnvAux r (some []) t
+
+def goReplaceEnvelopes (l r : List UInt8) : List UInt8 := replEnvAux r none (tokenize l)
+
 end Redact
 
 namespace Redact
